@@ -40,6 +40,10 @@ def patches(want_muts, want_benign, only):
         for d in sorted(glob.glob(os.path.join(harness.VERIF, "benign", "*"))):
             if os.path.exists(os.path.join(d, "patch.diff")):
                 out.append(("benign", os.path.basename(d), os.path.join(d, "patch.diff"), ALL))
+    if "--holdout" in sys.argv:
+        for d in sorted(glob.glob(os.path.join(harness.VERIF, "holdout", "*"))):
+            if os.path.exists(os.path.join(d, "patch.diff")):
+                out.append(("benign", os.path.basename(d), os.path.join(d, "patch.diff"), ALL))
     if only:
         out = [p for p in out if any(o in p[1] for o in only)]
     return out
